@@ -215,6 +215,13 @@ pub fn ack_frame_with_ecn(ecn: Ecn) -> impl Fn(&[u8]) -> nom::IResult<&[u8], Ack
     move |input: &[u8]| {
         let (mut remain, (largest, delay, count, first_range)) =
             (be_varint, be_varint, be_varint, be_varint).parse(input)?;
+        // A first range reaching below packet number 0 is a FRAME_ENCODING_ERROR (RFC 9000 §19.3.1)
+        if first_range > largest {
+            return Err(nom::Err::Error(nom::error::make_error(
+                input,
+                nom::error::ErrorKind::Verify,
+            )));
+        }
         let mut ranges = Vec::new();
         let mut count = count.into_u64() as usize;
         while count > 0 {
